@@ -66,7 +66,9 @@ CrashPairs(d) == IF ~CrashVocab THEN {} ELSE
   \cup {<<s, KeywordSeg(FALSE, kw, p)>> : s \in {Seg("MATCH_ALL", ""), Seg("TRAVERSE", ""), Seg("KEY", "a"), Seg("INDEX", "0")},
                                         kw \in {"parent", "name", "max", "unique", "has_child"}, p \in {"", "a", "2"}}
 
-V1(d) == CrashSegs(d) \cup KeySegsOf(d) \cup IdxSegs \cup SliceSegs \cup AnchSegs \cup SearchDot(d) \cup SearchAttr(d) \cup SearchDesc(d) \cup Stars
+\* has_child(&NAME): nodes holding a child anchored / aliased NAME (C02's keyword fragment; C13)
+AnchKw == IF UseAnchors THEN {KeywordSeg(inv, "has_child", "&A") : inv \in BOOLEAN} ELSE {}
+V1(d) == AnchKw \cup CrashSegs(d) \cup KeySegsOf(d) \cup IdxSegs \cup SliceSegs \cup AnchSegs \cup SearchDot(d) \cup SearchAttr(d) \cup SearchDesc(d) \cup Stars
 \* reduced vocabularies for the two positions of a two-segment path
 Small(d) == IF Rich THEN
               {Seg("KEY", k) : k \in StrKeysOf(d) \cup {"0", "-1", "zz"}} \cup {Seg("INDEX", "0"), Seg("INDEX", "-1"), Seg("INDEX", "2"),
